@@ -18,12 +18,28 @@ Record cut := Cut {
   ct_final : option dump           (* restored FSM after the suffix (its own lock delays) *)
 }.
 
+(* a hand-made snapshot stream (registration records no Persist would write) and what the real
+   FSM.Restore made of it: the restored store, or None when it refused the stream *)
+Record stream := Stream {
+  sm_last : N;
+  sm_records : list rec;
+  sm_result : option dump
+}.
+
 Record case := Case {
   c_log : list (N * cmd);
   c_results : list cres;
   c_final : dump;
-  c_cuts : list cut
+  c_cuts : list cut;
+  c_streams : list stream
 }.
+
+Definition check_stream (x : stream) : bool :=
+  match restore (sm_last x) (sm_records x), sm_result x with
+  | Ok r, Some d => st_eqb r (st_of d)
+  | Err _ _, None => true
+  | _, _ => false
+  end.
 
 Definition rec_eqb (a b : rec) : bool :=
   match a, b with
@@ -69,7 +85,8 @@ Definition check_cut (log : list (N * cmd)) (results : list cres) (c : cut) : N 
 Definition check (c : case) : bool :=
   let '(s, rs) := run (c_log c) st0 in
   list_eqb cres_eqb rs (c_results c) && st_eqb s (st_of (c_final c)) &&
-  forallb (fun ct => bool_decide (check_cut (c_log c) (c_results c) ct = 0)) (c_cuts c).
+  forallb (fun ct => bool_decide (check_cut (c_log c) (c_results c) ct = 0)) (c_cuts c) &&
+  forallb check_stream (c_streams c).
 
 (* first failing cut and its code, for diagnosis *)
 Definition diagnose (c : case) : option (nat * N) :=
@@ -81,7 +98,11 @@ Definition diagnose (c : case) : option (nat * N) :=
         | [] => None
         | ct :: l' => let code := check_cut (c_log c) (c_results c) ct in
                       if bool_decide (code = 0) then go l' else Some (ct_k ct, code)
-        end in go (c_cuts c).
+        end in
+    match go (c_cuts c) with
+    | Some x => Some x
+    | None => if forallb check_stream (c_streams c) then None else Some (0%nat, 8)   (* a hand-made stream *)
+    end.
 
 Fixpoint failing_from (n : N) (l : list case) : list N :=
   match l with
